@@ -91,6 +91,11 @@ class StyleExec(Exec):
                 diffs = [a for a in want if got.get(a) != want[a]]
                 if diffs:
                     kind = "styled" if (r, c) in self.cellstyle else "unstyled"
+                    if (r, c) in getattr(self, "named_cells", ()):
+                        self.fail(("named_style_on_reopened_handle", "reopened" if reopened else "open", *sorted(diffs)[:3]),
+                                  f"{where}: cell ({r},{c}) was given a saved style by name on the reopened handle; the open document then reported "
+                                  f"{ {a: want[a] for a in diffs} }, now it reads { {a: got.get(a) for a in diffs} }")
+                        continue
                     self.fail(("style", "reopened" if reopened else "open", kind, *sorted(diffs)[:3]),
                               f"{where}: cell ({r},{c}) [{kind}] style differs in {diffs}: got { {a: got.get(a) for a in diffs} }, expected { {a: want[a] for a in diffs} }")
 
@@ -141,7 +146,18 @@ class StyleExec(Exec):
         style = self.styles[idx]
         self.table.set_cell_style(row, col, self.smodel[idx]["name"] if by_name else style)
         self.cellstyle[(row, col)] = self.smodel[idx]
+        if hasattr(self, "named_cells"):
+            self.named_cells.discard((row, col))
         self.check_view(self.table, "apply")
+
+    def op_apply_saved_name(self, row, col, name):
+        """On a reopened handle: a style that was saved with the document, applied by its name.  Whatever the open document
+        then reports for the cell is what the saved file must report too."""
+        self.table.set_cell_style(row, col, name)
+        self.cellstyle[(row, col)] = style_tuple(self.table.cell(row, col).style)
+        self.named_cells = getattr(self, "named_cells", set()) | {(row, col)}
+        self.flags.add("saved_style_by_name_on_reopened_handle")
+        self.check_view(self.table, "apply_saved_name")
 
     def op_edit(self, idx, attr, value):
         from numbers_parser import RGB, Alignment
@@ -275,6 +291,16 @@ def make_style_machine(ctx):
                       idx=data.draw(st.integers(0, len(self.ex.styles) - 1)), by_name=by_name)
 
         @rule(data=st.data())
+        def apply_saved_name(self, data):
+            self.ensure(data)
+            names = sorted(getattr(self.ex, "frozen_names", ()))
+            if self.dead or not names:
+                return
+            t = self.ex.table
+            self.step("apply_saved_name", row=data.draw(st.integers(0, t.num_rows - 1)), col=data.draw(st.integers(0, t.num_cols - 1)),
+                      name=data.draw(st.sampled_from(names)))
+
+        @rule(data=st.data())
         def edit(self, data):
             self.ensure(data)
             if self.dead or not self.ex.styles:
@@ -315,7 +341,10 @@ def make_style_machine(ctx):
         def teardown(self):
             try:
                 if not self.dead and self.ex.doc is not None:
-                    self.ex.finish()
+                    if self.ex.log and self.ex.log[-1]["op"] != "reopen":
+                        self.step("reopen", switch=False)  # every history ends with what a reader of the saved file sees
+                    if not self.dead:
+                        self.ex.finish()
             finally:
                 self.ex.close()
 
